@@ -21,8 +21,13 @@ class MatForm:
     __slots__ = ("p", "sym")
 
     def __init__(self, p: Poly, sym: frozenset = frozenset()):
-        self.p = {w: c for w, c in p.items() if c != 0}
+        self.p = {w: (int(c) if isinstance(c, Fraction) and c.denominator == 1 else c) for w, c in p.items() if c != 0}
         self.sym = sym
+
+    def scale(self, q):
+        """rational multiple (e.g. the 1/2 of a symmetrisation (X + X^T)/2)"""
+        q = Fraction(q)
+        return MatForm({w: c * q for w, c in self.p.items()}, self.sym)
 
     # ---- constructors
     @staticmethod
